@@ -2841,7 +2841,15 @@ def substitute(t, sub, opts=None):
         elif tag == 'attr':
             out = get_attr(rec(t[1]), t[2])
         elif tag == 'call':
-            out = ('call', rec(t[1]), tuple(rec(x) for x in t[2]), tuple(('kw', k[1], rec(k[2])) for k in t[3]))
+            f_ = t[1]
+            if f_[0] == 'attr':
+                # the receiver of a method call keeps its pending stores (get_attr would look through them)
+                rx = rec(f_[1])
+                g_ = get_attr(rx, f_[2])
+                f2 = g_ if not (g_[0] == 'attr' and g_[2] == f_[2]) else ('attr', rx, f_[2])
+            else:
+                f2 = rec(f_)
+            out = ('call', f2, tuple(rec(x) for x in t[2]), tuple(('kw', k[1], rec(k[2])) for k in t[3]))
         else:
             out = tuple(rec(x) if type(x) is tuple else x for x in t)
         memo[k] = (t, out)
